@@ -71,12 +71,13 @@ def extract(cfg, repo=REPO, crate='flexi_logger', verbose=False):
     out = facts_path(cfg, repo, crate)
     if os.path.exists(out):
         return out
-    lock = open(os.path.join(CACHE, f'lock-{crate}-{cfg}'), 'w')
+    tag = os.environ.get('FL_CACHE_TAG', '')     # parallel self-test jobs (each on its own scratch clone) use their own cargo target directory
+    lock = open(os.path.join(CACHE, f'lock-{crate}-{cfg}{tag}'), 'w')
     fcntl.flock(lock, fcntl.LOCK_EX)
     try:
         if os.path.exists(out):
             return out
-        target = os.path.join(CACHE, f'target-{crate}-{cfg}')
+        target = os.path.join(CACHE, f'target-{crate}-{cfg}{tag}')
         # cargo's freshness cache would skip the wrapper: forget the member's fingerprint
         for fp in glob.glob(os.path.join(target, 'debug', '.fingerprint', f'{crate}-*')):
             shutil.rmtree(fp, ignore_errors=True)
